@@ -531,6 +531,8 @@ impl<'de, R: Read<'de>> Parser<R> {
                 if next == 0 || is_delimiter(next) || is_sign_subsequent(next) {
                     let name = self.parse_symbol_suffix("-")?;
                     self.symbol_token(name)
+                } else if next == b'.' {
+                    self.parse_sign_dot_symbol("-.")?
                 } else {
                     Token::Number(self.parse_num_token(false)?)
                 }
@@ -541,6 +543,8 @@ impl<'de, R: Read<'de>> Parser<R> {
                 if next == 0 || is_delimiter(next) || is_sign_subsequent(next) {
                     let name = self.parse_symbol_suffix("+")?;
                     self.symbol_token(name)
+                } else if next == b'.' {
+                    self.parse_sign_dot_symbol("+.")?
                 } else {
                     Token::Number(self.parse_num_token(true)?)
                 }
@@ -860,6 +864,19 @@ impl<'de, R: Read<'de>> Parser<R> {
             Token::Keyword(name) => Value::Keyword(name),
             Token::Symbol(name) => Value::Symbol(name),
             _ => unreachable!(),
+        }
+    }
+
+    // A sign followed by a dot starts a peculiar identifier such as `+.x`
+    // (R7RS 7.1.1), unless a digit follows.
+    fn parse_sign_dot_symbol(&mut self, prefix: &str) -> Result<Token> {
+        self.eat_char();
+        match self.peek_or_null()? {
+            b'0'..=b'9' => Err(self.peek_error(ErrorCode::InvalidNumber)),
+            _ => {
+                let name = self.parse_symbol_suffix(prefix)?;
+                Ok(self.symbol_token(name))
+            }
         }
     }
 
